@@ -3,6 +3,10 @@ package props
 import (
 	"fmt"
 
+	nodetypes "github.com/SaoNetwork/sao/x/node/types"
+	sdk "github.com/cosmos/cosmos-sdk/types"
+	"saoverif/chain"
+
 	"saoverif/actors"
 	"saoverif/check"
 	"saoverif/world"
@@ -28,6 +32,13 @@ func scnRenewRecipes(ctx *check.JobCtx) {
 	p.Providers = 4
 	p.BlockReward = 1000
 	p.PoorSP = mode == "debt-release" || mode == "debt-expire"
+	if mode == "unaligned" {
+		rewardRegime(&p)
+		if ctx.Job.Seed%2 == 0 {
+			prev := p.Params
+			p.Params = func(np *nodetypes.Params) { prev(np); np.Baseline = sdk.NewInt64Coin(chain.Denom, 1000) }
+		}
+	}
 	l := SetupLife(w, p)
 	if w.Halted() {
 		w.Finish()
@@ -104,7 +115,7 @@ func scnRenewRecipes(ctx *check.JobCtx) {
 	case "unaligned":
 		for k := 0; k < 6; k++ {
 			sp := l.SP[r.Intn(len(l.SP))]
-			w.RemoveVstorage(sp.Acct, []uint64{1_000_001, 1_999_999, 2_500_001, 5_999_999, 7_000_000}[r.Intn(5)])
+			w.RemoveVstorage(sp.Acct, []uint64{1_000_001, 1_999_999, 2_500_001, 5_999_999, 7_000_000, 1_000_000_001, 3_999_999_999}[r.Intn(7)])
 			w.Advance(int64(20 + r.Intn(200)))
 			if r.Intn(2) == 0 {
 				w.AddVstorage(sp.Acct, []uint64{1, 1_500_000, 999_999}[r.Intn(3)])
